@@ -9,6 +9,7 @@ int main(int argc, char** argv) {
   std::vector<double> radii; { std::stringstream ss(argv[3]); std::string t; while (std::getline(ss, t, ',')) radii.push_back(tod(t)); }
   initFactorials();
   std::string set; int q;
+  ECPBasis shared; long nshared = 0, shared_bad = 0;   // one long-lived basis receiving every (set, element) in turn
   while (in >> set >> q) {
     ECPBasis b; std::array<double,3> c = {0.1, -0.2, 0.3};
     b.addECP_from_file(q, c, share + "/xml/" + set + ".xml");
@@ -25,6 +26,19 @@ int main(int argc, char** argv) {
     std::fprintf(f, "mat eval %d %d", U.getL() + 1, (int)radii.size());
     for (int l = 0; l <= U.getL(); l++) for (double r : radii) std::fprintf(f, " %a", U.evaluate(r, l));
     std::fprintf(f, "\nend\n");
+    // the same load into the long-lived basis must give the same object whatever was loaded before
+    shared.addECP_from_file(q, c, share + "/xml/" + set + ".xml"); nshared++;
+    bool same = (shared.getN() == nshared);
+    if (same) {
+      ECP& V = shared.getECP((int)nshared - 1);
+      same = V.getN() == U.getN() && V.getL() == U.getL() && V.gaussians.size() == U.gaussians.size() && V.min_exp == U.min_exp;
+      for (size_t i = 0; same && i < U.gaussians.size(); i++)
+        same = V.gaussians[i].n == U.gaussians[i].n && V.gaussians[i].l == U.gaussians[i].l && V.gaussians[i].a == U.gaussians[i].a && V.gaussians[i].d == U.gaussians[i].d;
+      for (int i = 0; same && i < LIBECPINT_MAX_L + 2; i++) same = V.l_starts[i] == U.l_starts[i];
+      for (int i = 0; same && i < 3; i++) same = V.center()[i] == U.center()[i];
+    }
+    if (!same) { shared_bad++; std::printf("SHAREDMISMATCH %s:%s loaded as entry %ld of a basis that already held other elements/sets differs from the same load into a fresh basis\n", set.c_str(), atom_names[q-1].c_str(), nshared); }
   }
+  std::printf("SHARED loads=%ld mismatches=%ld\n", nshared, shared_bad);
   std::fclose(f); return 0;
 }
